@@ -498,10 +498,10 @@ func panicInOxy(logPath string) (fn, msg string) {
 	}
 	lines := strings.Split(string(b), "\n")
 	for i, l := range lines {
-		if !strings.HasPrefix(l, "panic: ") {
+		if !strings.HasPrefix(l, "panic: ") && !strings.HasPrefix(l, "fatal error: ") {
 			continue
 		}
-		msg = strings.TrimPrefix(l, "panic: ")
+		msg = strings.TrimPrefix(strings.TrimPrefix(l, "panic: "), "fatal error: ")
 		// skip to the stack of the panicking goroutine
 		for j := i + 1; j < len(lines) && j < i+400; j++ {
 			f := strings.TrimSpace(lines[j])
